@@ -3,7 +3,7 @@ import re
 CONFIG = dict(
     bin="c19",
     drv="drv_c19",
-    lean_modules=["MahfModel.Props.C19", "MahfModel.Props.C19Run"],
+    lean_modules=["MahfModel.Props.C19", "MahfModel.Props.C19Run", "MahfModel.Props.C19Eval"],
     namespaces=["MahfModel.Props.C19"],
     shrink_lists=["pop"],
     level="proof",
@@ -16,7 +16,12 @@ CONFIG = dict(
           "recovered from the produced tours. (2) AsPheromoneUpdate / MinMaxPheromoneUpdate alone on prepared populations "
           "(tours, truncated / repeated / rotated routes, equal objective values, astronomically long tours, +inf objective), "
           "rho in {0,0.1,0.9,1} + random, bounds incl. min = 0 and min ~ max, 0..8 ants, 1..12 cities. (3) chains of assembled "
-          "generation -> PopulationEvaluator -> update steps where every reached matrix is the next input. (4) 32 long runs "
+          "generation -> PopulationEvaluator -> update steps where every reached matrix is the next input. (3b) the same chains "
+          "composed from the public components the way the generic `aco::aco::<P, I>` wires them, under evaluator identifier "
+          "Global, A or B (`ConfigurationBuilder::evaluate_with::<I>()`), with the tour-length evaluator registered under the "
+          "requested identifier and a decoy evaluator (number of long hops / 1/(1+length) / constant / none) under the two other "
+          "identifiers, 3..12 cities, 1..8 ants: the objectives that reach the update must be the closing-edge tour lengths "
+          "[objective], an Err of the evaluation step is a violation [panic]. (4) 32 long runs "
           "(200 quick / 5000 thorough updates) of the shipped templates ant_system and max_min_ant_system over the 4 parameter "
           "points of the shared template grid (incl. the degenerate-valid one) x 4 TSP instances under the step observer: every "
           "step is checked in-process (count, permutation from city 0, finite, non-negative, within bounds; first matrix = "
@@ -34,7 +39,9 @@ CONFIG = dict(
         "f64 arithmetic (+ - * /) is IEEE double in both Rust and Lean's Float; theorems are over an ordered field (exact arithmetic)",
         "f64::powf, WeightedIndex/Uniform sampling (rand 0.8.5) are abstracted: pow is a parameter, a sampled tour is a function of a witness",
         "Vec::remove / slice indexing represented by their list semantics",
-        "PopulationEvaluator and the test problem's objective (closing-edge tour length) are the harness' Tsp"],
+        "the test problem's objective (closing-edge tour length) is the harness' Tsp; PopulationEvaluator<I> is the real component "
+        "(run under Global, A and B with decoy evaluators under the other identifiers); in the model an evaluator is a function "
+        "on routes looked up by identifier"],
     assumptions=[
         "valid parameters: 0 <= rho <= 1, decay coefficient >= 0, 0 <= min < max, finite distances >= 1e-9 between distinct cities "
         "(no upper limit other than a finite tour length: up to 1e300), alpha, beta in [0,5], non-negative finite pheromones, "
@@ -59,6 +66,9 @@ CONFIG.update(
                 "state reachable from init by any number of passes, any draws and any greedy tie-breaking is a well-formed "
                 "non-negative n x n matrix (within bounds after the first max-min update); on every reachable state no pass can "
                 "panic, every completed pass satisfies all generation and update clauses, and for legal draws the pass completes. "
+                "A step composed under any evaluator identifier whose evaluator is the tour length IS that step, whatever is "
+                "registered under the other identifiers (composed_step_is_step, composed_step_ignores_other_identifiers), and its "
+                "passes stay within the reachable states (composed_pass_reachable). "
                 "The model is tied to /repo by running the real components alone, assembled, and inside long runs of both templates, "
                 "and diffing against the compiled model (K); the property's executable clauses are evaluated on the "
                 "implementation's outputs (O)."),
@@ -72,5 +82,8 @@ CONFIG.update(
                 "trails in f64 is checked on the explored runs only (the bound theorems are exact arithmetic; with rho = 0 the "
                 "ant-system trails grow without bound by design). Observed, outside the property: on an instance without any "
                 "city generation returns the route [0]; distances below ~1e-62 with beta = 5 overflow (1/d)^beta and "
-                "WeightedIndex::new panics (the harness' domain starts at 1e-9)."),
+                "WeightedIndex::new panics (the harness' domain starts at 1e-9). The generic template `aco::aco::<P, I>` itself is "
+                "not run under a non-Global identifier (its `Parameters` cannot be built outside the crate and the shared template "
+                "runner covers the 21 shipped templates only); the same loop body is composed from the public components instead "
+                "(step chains, identifiers Global / A / B only)."),
 )
